@@ -460,10 +460,20 @@ package reader
 // barriers: what one shard has seen (a partition's drop message) must not make
 // another shard, which is still behind, filter messages or skip its signal.  Stated as a precondition of the function
 // every shard is started through; the callback of StartReadCollection builds these records.
-//@ trusted func (*replicateChannelManager).startReadChannel
+//@ func (*replicateChannelManager).startReadChannel
+//@   props C16 C01
+// the manager's tables exist and its channel mapping is well formed (constructor NewReplicateChannelManager; C16 type contracts)
+//@   assumes r != nil && r.channelMapping != nil && r.channelForwardMap != nil && r.channelHandlerMap != nil && r.sourcePChannelKeyMap != nil
+//@   assumes shapeCM(r.channelMapping) && balancedCM(r.channelMapping)
 //@   requires [every-shard-gets-its-own-dropped-partition-table] madeHere(targetInfo.DroppedPartition)
 //@   requires [every-shard-gets-its-own-partition-barrier-table] madeHere(targetInfo.PartitionBarrierChan)
 //@   requires [the-shard-record-carries-the-downstream-collection-and-channel] targetInfo != nil && sourceInfo != nil
+//@   trustpre AddKeyValue
+//@   private util.ChannelMapping.* maps(string;string) maps(string;int) replicateChannelManager.channelMapping replicateChannelManager.channelForwardMap model.SourceCollectionInfo.PChannel model.TargetCollectionInfo.PChannel
+// C16: a direct assignment is counted on the side that is limited - the value side of the pair (the downstream
+// channel when the source side has more channels, the source channel otherwise): the forward quota of forwardChannel
+// and the assignment of waitChannel read exactly this counter.  (after(CheckKeyNotExist, e): e when the quota was checked)
+//@   ensures [a-direct-assignment-is-counted-on-the-value-side] result0 != nil ==> reached(CheckKeyNotExist) && r.channelForwardMap[ite(r.channelMapping.targetMapping != nil, sourceInfo.PChannel, targetInfo.PChannel)] == wrapInt(after(CheckKeyNotExist, r.channelForwardMap[ite(r.channelMapping.targetMapping != nil, sourceInfo.PChannel, targetInfo.PChannel)]) + 1)
 //@ func (*replicateChannelManager).StartReadCollection$6
 //@   props C01 C04 C02
 //@   requires deref(r) != nil && deref(info) != nil && deref(info).Schema != nil && deref(targetInfo) != nil && deref(barrier) != nil
